@@ -121,6 +121,7 @@ impl Ctx {
             writeln!(f, "\n].").unwrap();
             writeln!(f, "Eval vm_compute in (TagCorr, failing corr cases).").unwrap();
             writeln!(f, "Eval vm_compute in (TagOracle, failing oracle cases).").unwrap();
+            writeln!(f, "Eval vm_compute in (TagInfo, info cases).").unwrap();
             shards.push(json!({"file": name, "start": start, "count": end - start}));
             start = end;
             k += 1;
